@@ -65,11 +65,11 @@ Res(v, st, ev)   == [s |-> "ok", w |-> "", v |-> v, st |-> st, ev |-> ev]
 Fail(o, st, ev)  == [s |-> o.s, w |-> o.w, v |-> 0, st |-> st, ev |-> ev]      \* o: a failed outcome of MiniCTypes
 UbR(w, st, ev)   == [s |-> "ub", w |-> w, v |-> 0, st |-> st, ev |-> ev]
 
-\* record an evaluation (integer typed nodes only): <<node, value, alt>>.  alt = value, except for a simple
+\* record an evaluation (nodes of integer or pointer type; value facts exist for integer nodes only): <<node, value, alt>>.  alt = value, except for a simple
 \* assignment where alt is the value of the right operand before its conversion to the type of the left one:
 \* cppcheck copies the values of the right operand to the `=` token unchanged (lib/vf_settokenvalue.cpp), so a
 \* fact printed on `=` is read as a fact about either of the two.
-Note2(pi, id, v, alt) == IF N(pi, id).ty \in IntTypes THEN <<<<id, v, alt>>>> ELSE <<>>
+Note2(pi, id, v, alt) == IF N(pi, id).ty \in IntTypes \cup {"ptr"} THEN <<<<id, v, alt>>>> ELSE <<>>
 Note(pi, id, v) == Note2(pi, id, v, v)
 
 \* finish an operator node: o is the outcome of the value computation
@@ -154,7 +154,10 @@ E(pi, id, st) ==
          IF l.s # "ok" THEN [l EXCEPT !.ev = r.ev \o l.ev] ELSE
          LET c == IF n.ty = "ptr" THEN Ok(r.v) ELSE Conv(pl, n.ty, r.v)
              ev == r.ev \o l.ev
-         IN IF c.s # "ok" THEN Fail(c, l.st, ev) ELSE Res(c.v, Write(l.st, l.v, c.v), ev \o Note2(pi, id, c.v, r.v))
+             \* the designated object a[i] / *p counts as evaluated (a runtime-error finding may sit on it); it has no
+             \* value of its own here, so the fact converter attaches no value fact to the left side of a simple assignment
+             lvn == IF N(pi, n.a).k \in {"idx", "deref"} THEN <<<<n.a, 0, 0>>>> ELSE <<>>
+         IN IF c.s # "ok" THEN Fail(c, l.st, ev) ELSE Res(c.v, Write(l.st, l.v, c.v), ev \o lvn \o Note2(pi, id, c.v, r.v))
     [] n.k = "asg" /\ n.op # "=" ->           \* E1 op= E2  is  E1 = E1 op E2  with E1 evaluated once (6.5.16.2)
          LET l == LV(pi, n.a, st) IN
          IF l.s # "ok" THEN l ELSE
@@ -339,7 +342,7 @@ Holds(pi, id, f, v, pre, post) ==
          LET sv == SymVal(pi, f, pre, post) IN
          IF sv = <<>> \/ ~SafeAdd(sv[1], f.v) THEN TRUE
          ELSE LET x == sv[1] + f.v IN
-              CASE f.k = "seq" -> v = x [] f.k = "sne" -> v # x [] f.k = "sgt" -> v > x [] f.k = "slt" -> v < x
+              (CASE f.k = "seq" -> v = x [] f.k = "sne" -> v # x [] f.k = "sgt" -> v > x [] f.k = "slt" -> v < x)
     [] f.k = "flag" -> TRUE                    \* C04 marker, judged by NeverReached
 
 \* <<i, j>>: the j-th fact of the node of the i-th evaluation is contradicted
@@ -353,8 +356,18 @@ Contradictions(pi, ev, pre, post) ==
 \* cppcheck defect "symbolic values ignore narrowing conversions" (a value that went through unsigned char / short
 \* keeps its symbolic relation, a decrement of an unsigned char is recorded as +255): such contradictions are
 \* reported under the class key "sym-mod256" instead of a per-program key.  Everything else has class "".
-ClassOf(pi, f, v, pre, post) ==
-  IF f.k # "seq" THEN ""
+\* A second class: where cppcheck knows that an expression used as a truth value (operand of ! && ||, controlling
+\* expression) is non-zero, it writes the known value 1 on it although any non-zero value is possible
+\* ("truthy-known-1": fact x == 1 on a node in boolean context, actual value non-zero).
+BoolCtx(pi, id, par) ==
+  par # 0 /\ LET q == N(pi, par) IN
+             \/ q.k \in {"land", "lor"}
+             \/ q.k = "un" /\ q.op = "!"
+             \/ q.k \in {"if", "while", "dowhile", "cond"} /\ q.a = id
+             \/ q.k = "for" /\ q.b = id
+ClassOf(pi, id, f, v, pre, post) ==
+  IF f.k = "eq" /\ f.v = 1 /\ v # 0 /\ BoolCtx(pi, id, f.par) THEN "truthy-known-1"
+  ELSE IF f.k # "seq" THEN ""
   ELSE LET sv == SymVal(pi, f, pre, post) IN
        IF sv = <<>> \/ ~SafeAdd(sv[1], f.v) THEN ""
        ELSE LET x == sv[1] + f.v IN
@@ -365,7 +378,7 @@ FirstContradiction(pi, ev, pre, post) ==
   IF cs = {} THEN NoBad
   ELSE LET c == CHOOSE c \in cs : \A d \in cs : c[1] < d[1] \/ (c[1] = d[1] /\ c[2] <= d[2])
            f == P(pi).nf[ev[c[1]][1]][c[2]]
-       IN [set |-> TRUE, node |-> ev[c[1]][1], v |-> ev[c[1]][2], fact |-> c[2], cls |-> ClassOf(pi, f, ev[c[1]][2], pre, post)]
+       IN [set |-> TRUE, node |-> ev[c[1]][1], v |-> ev[c[1]][2], fact |-> c[2], cls |-> ClassOf(pi, ev[c[1]][1], f, ev[c[1]][2], pre, post)]
 
 \* nodes carrying facts among the evaluated ones (ghost `seen`: which facts an execution exercised)
 FactNodes(pi, ev) == {ev[i][1] : i \in {i \in 1..Len(ev) : P(pi).nf[ev[i][1]] # <<>>}}
